@@ -172,3 +172,16 @@ Fixpoint lines_ok (ps : list (list Z)) (ls : list (list Z)) : bool :=
   end.
 
 Definition listing_prefixes (f : lfmt) (is : list linstr) : list (list Z) := map (event_prefix f) (events f None is).
+
+(* ---- the "ExceptionTable:" section (cross_dis.format_exception_table): one line per entry of the parsed table ---- *)
+Definition exc_line (e : Z * Z * Z * Z * bool) : list Z :=
+  let '(s, en, t, d, l) := e in
+  s2z "  " ++ dec s ++ s2z " to " ++ dec (en - 2) ++ s2z " -> " ++ dec t ++ s2z " [" ++ dec d ++ s2z "]" ++ (if l then s2z " lasti" else []).
+Definition exc_lines (es : list (Z * Z * Z * Z * bool)) : list (list Z) := s2z "ExceptionTable:" :: map exc_line es.
+Fixpoint join_nl (ls : list (list Z)) : list Z :=
+  match ls with
+  | [] => []
+  | [x] => x
+  | x :: tl => x ++ 10 :: join_nl tl
+  end.
+Definition exc_table_text (es : list (Z * Z * Z * Z * bool)) : list Z := join_nl (exc_lines es).
